@@ -258,3 +258,8 @@ def run(ctx):
     if new is not None:
         shared(ctx, lambda c: C11.r1(c, new), 'R-C11-1', 'R-C02-9')
     shared(ctx, C11.r4, 'R-C11-4', 'R-C02-9')
+    # R-C02-10 (= the verifier half of R-C04-1 / R-C04-2): the relation is enforced *at the Fiat-Shamir challenges*: a statement datum or
+    # prover message that the verifier does not absorb (whole, to the end, before the challenge that should depend on it) can be chosen
+    # after that challenge is known, and then the weighted equation no longer implies the range statement
+    from . import C04
+    shared(ctx, C04.run, 'R-C04', 'R-C02-10', only=('/verifier/',))
